@@ -137,9 +137,9 @@ theorem Sim.frame {s s' : State K} {w : Worker K} {a : Abs} (h : Sim s w a)
       obtain ⟨d, c, h1, h2, h3⟩ := h.decoded hd
       exact ⟨d, c, h1, h2, hl _ h3⟩ }
 
-/-- the per-worker invariant: halted, or at a checked program point -/
+/-- the per-worker invariant: halted (between iterations), or at a checked program point -/
 def WInv (cfg : Cfg) (spec : CountSpec) (s : State K) (w : Worker K) : Prop :=
-  w.halted = true ∨ ∃ a, Sim s w a ∧ check spec (headAbs cfg.prog) w.pc a = true
+  (w.halted = true ∧ w.cur = none) ∨ ∃ a, Sim s w a ∧ check spec (headAbs cfg.prog) w.pc a = true
 
 theorem WInv.frame {cfg : Cfg} {spec : CountSpec} {s s' : State K} {w : Worker K} (h : WInv cfg spec s w)
     (hm : ∀ b, w.owns = true → w.msg = some b → s'.mem b = s.mem b)
